@@ -15,7 +15,11 @@
                                                 C03_state_all / C03_initial_state_all / C03_tags_all (xs:all content)
   enumerations use schema values               C03_enum_*
   required elements / complete subtrees        C03_valid_point, C03_valid_rectangle, C03_valid_circle (full recursive validity)
-  whole document                               C03_valid_doc_partial (root assembly), `C03_valid_doc_full` (statement)
+  every subtree down to the leaves             C03_valid_* (section 7: states, shapes, predictions, obstacles, lanelets, signs,
+                                                lights, intersections, planning problems, location, tags), C03_valid_tree
+  id / ref key constraints                     C03_keys_ok, C03_doc_key_values, C03_doc_refs
+  whole document                               C03_valid_doc : C03_valid_doc_full writerModel  (complete writer model);
+                                                C03_valid_doc_partial / C03_valid_doc_parts (root assembly from valid parts)
 -/
 import CRProofs.Xsd
 import CRProofs.XsdEnum
@@ -24,6 +28,7 @@ import CRProofs.XsdEnumA2
 import CRProofs.XsdEnumA3
 import CRProofs.XsdEnumA4
 import CRProofs.XsdEnumB
+import CRProofs.XsdDocF
 import Gen.XsdScenario
 import Gen.PyEnums
 
@@ -628,7 +633,6 @@ def rootNode (p : Parts) : Xml := .node "commonRoad" p.attrs [] p.families.flatt
 /-- every member of the family is an element `name` that is valid against `type` -/
 def Fam (name type : String) (f : List Xml) : Prop := ∀ x ∈ f, x.name = name ∧ validNode schema type x = true
 
-def rootDecl : List AttrP := match schema.lookup "/commonRoad" with | some (.complex d _ _) => d | _ => []
 
 /-- **valid_doc (partial).** If the header attributes are valid, every object subtree is valid against the type of its
     family, there is at least one lanelet and one planning problem, and the identity constraints hold, then the document
@@ -735,5 +739,141 @@ theorem C03_valid_doc_parts : C03_valid_doc_full partsWriter := by
   intro p h
   obtain ⟨a, b, c, d, e, f, g, h1, i, j, k, l, m, n, o, q⟩ := h
   exact C03_valid_doc_partial p a b c d e f g h1 i j k l m n o q
+
+
+/-! ## 7. Every subtree, down to every leaf — and the whole document
+
+`CR.XmlW.docNode` (CRModel/CRXmlWDoc.lean) is the complete tree the writer builds from the data it reads off the scenario
+objects (`DocD`: numbers as repr + exact value, ids, enum values as written, optional parts, lists in iteration order).  The
+harness compares it with the tree the real writer produced for every generated document (op `tree`).  The predicates
+`…Ok` say "schema-expressible" for each kind of object; they are the `minOccurs` / facets / required elements of the XSD
+itself (ids ≥ 1, lengths > 0, ≥ 2 bound points, time steps ≥ 1 / = 0, interval goals, enum values the schema lists …).
+Proofs: CRProofs/XsdDoc.lean (leaf lemmas, assembly rules), XsdDocA–E. -/
+
+/-- states: trajectory state, obstacle initial state, planning-problem initial state, goal state; signal states -/
+theorem C03_valid_state (p : Nat) (tag : String) (st : List Attr) (h : StateOk st) :
+    validNode schema "state" (stateNode p tag st) = true := valid_state p tag h
+theorem C03_valid_initialState (p : Nat) (tag : String) (st : List Attr) (h : InitialStateOk st) :
+    validNode schema "initialState" (stateNode p tag st) = true := valid_initialState p tag h
+theorem C03_valid_planningInitialState (p : Nat) (tag : String) (st : List Attr) (h : PlanningInitialStateOk st) :
+    validNode schema "initialStateExact" (stateNode p tag st) = true := valid_planningInitialState p tag h
+theorem C03_valid_goalState (p : Nat) (tag : String) (st : List Attr) (h : GoalStateOk st) :
+    validNode schema "goalState" (stateNode p tag st) = true := valid_goalState p tag h
+theorem C03_valid_signalState (tag : String) (s : Signal) (h : 1 ≤ s.t) :
+    validNode schema "signalState" (signalNode tag s) = true := valid_signalState tag s h
+theorem C03_valid_initialSignalState (tag : String) (s : Signal) (h : s.t = 0) :
+    validNode schema "initialSignalState" (signalNode tag s) = true := valid_initialSignalState tag s h
+
+/-- shapes (any mixture, static or in the frame of a dynamic obstacle), positions -/
+theorem C03_valid_shape (p : Nat) (dyn : Bool) (s : List Shape1) (h : ShapeOk s) :
+    validNode schema "shape" (el "shape" (shapeNodes p dyn s)) = true := valid_shape p dyn h
+theorem C03_valid_position (p : Nat) (q : CR.XmlW.Pos) (h : PosOk q) : validNode schema "position" (posNode p q) = true :=
+  valid_pos p h
+
+/-- occupancies, set-based predictions, trajectories -/
+theorem C03_valid_occupancy (p : Nat) (o : Occ) (h : OccOk o) : validNode schema "occupancy" (occNode p o) = true := valid_occ p h
+theorem C03_valid_occupancySet (p : Nat) (os : List Occ) (hne : os ≠ []) (h : ∀ o ∈ os, OccOk o) :
+    validNode schema "dynamicObstacle/occupancySet" (occSetNode p os) = true ∧
+    validNode schema "phantomObstacle/occupancySet" (occSetNode p os) = true :=
+  ⟨valid_occSet _ pt_dynOccSet (by decide) (by decide) p hne h, valid_occSet _ pt_phOccSet (by decide) (by decide) p hne h⟩
+theorem C03_valid_trajectory (p : Nat) (sts : List (List Attr)) (hne : sts ≠ []) (h : ∀ st ∈ sts, StateOk st) :
+    validNode schema "dynamicObstacle/trajectory" (trajNode p sts) = true := valid_traj p hne h
+
+/-- obstacles -/
+theorem C03_valid_staticObstacle (p : Nat) (o : StaticObs) (h : StaticOk o) :
+    validNode schema "staticObstacle" (staticNode p o) = true := valid_static p h
+theorem C03_valid_dynamicObstacle (p : Nat) (o : DynObs) (h : DynOk o) :
+    validNode schema "dynamicObstacle" (dynNode p o) = true := valid_dynamic p h
+theorem C03_valid_environmentObstacle (p : Nat) (o : EnvObs) (h : EnvObsOk o) :
+    validNode schema "environmentObstacle" (envObsNode p o) = true := valid_envObs p h
+theorem C03_valid_phantomObstacle (p : Nat) (o : PhantomObs) (h : PhantomOk o) :
+    validNode schema "phantomObstacle" (phantomNode p o) = true := valid_phantom p h
+
+/-- lanelets (bounds, line markings, predecessor / successor / adjacency references, stop line, types / users, sign and
+    light references), traffic signs, traffic lights, intersections -/
+theorem C03_valid_lanelet (p : Nat) (l : LaneletD) (h : LaneletOk l) : validNode schema "lanelet" (laneletNode p l) = true :=
+  valid_lanelet p h
+theorem C03_valid_stopLine (p : Nat) (s : StopLineD) (h : StopOk s) : validNode schema "stopLine" (stopLineNode p s) = true :=
+  valid_stopLine p h
+theorem C03_valid_trafficSign (p : Nat) (s : SignD) (h : SignOk s) : validNode schema "trafficSign" (signNode p s) = true :=
+  valid_sign p h
+theorem C03_valid_trafficLight (p : Nat) (l : LightD) (h : LightOk l) : validNode schema "trafficLight" (lightNode p l) = true :=
+  valid_light p h
+theorem C03_valid_intersection (x : IntersectionD) (h : IntersectionOk x) :
+    validNode schema "intersection" (intersectionNode x) = true := valid_intersection h
+
+/-- planning problems (initial state, goal states incl. lanelet positions), location / environment / tags -/
+theorem C03_valid_planningProblem (p : Nat) (q : ProblemD) (h : ProblemOk q) :
+    validNode schema "planningProblem" (problemNode p q) = true := valid_problem p h
+theorem C03_valid_location (l : LocationD) (h : LocationOk l) : validNode schema "location" (locationNode l) = true :=
+  valid_location h
+theorem C03_valid_tags (tags : List String) (h : TagsOk tags) : validNode schema "tag" (tagsNode tags) = true := valid_tags h
+
+/-- the whole element tree against the root type: every element, attribute and leaf -/
+theorem C03_valid_tree (d : DocD) (h : DocOk d) : validNode schema "/commonRoad" (docNode d) = true := valid_docNode h
+
+/-- **keys_ok.** Over any element tree: if the elements selected by the schema's key selector carry exactly the ids `ids`,
+    these are pairwise different, and every `@ref` below the root has the value of one of them, then xs:key and xs:keyref hold. -/
+theorem C03_keys_ok (root : Xml) (ids : List Int)
+    (hk : keyValues { schema with keyPaths := schema.keyPaths.eraseDups } root = ids.map some) (hunique : ids.Nodup)
+    (hresolve : ∀ v ∈ refsOfList schema.refField root.kids, ∃ i ∈ ids, intValue v.toList = some i) :
+    keysOk schema root = true ∧ refsOk schema root = true := keys_refs_ok schema root ids hk hunique hresolve
+
+/-- … and for the document tree the key selector selects exactly `docIds d`: the ids of the lanelets, signs, lights,
+    intersections, obstacles, planning problems and incomings. -/
+theorem C03_doc_key_values (d : DocD) :
+    keyValues { schema with keyPaths := schema.keyPaths.eraseDups } (docNode d) = (docIds d).map some := doc_keyValues d
+
+/-- the `@ref` values below the root are the written forms of `docRefs d`: predecessor / successor / adjacency / stop-line /
+    sign / light references of the lanelets, the lanelet references of the intersections, and the lanelet positions of goal
+    states -/
+theorem C03_doc_refs (d : DocD) : refsOfList "ref" (docNode d).kids = (docRefs d).map istr := doc_refs d
+
+/-- the writer model: inputs are the data of a scenario + planning-problem set; expressible means schema-expressible
+    (`DocOk`), pairwise different ids, and every reference points at one of the ids -/
+def writerModel : WriterModel where
+  Input := DocD
+  Expressible := CR.C03.Expressible   -- DocOk d ∧ (docIds d).Nodup ∧ ∀ r ∈ docRefs d, r ∈ docIds d  (decidable)
+  encode := docNode
+
+/-- **valid_doc.** `C03_valid_doc_full` for the complete writer model: every schema-expressible scenario with unique ids and
+    resolvable references is written as a document that is valid against the shipped 2020a XSD — element order, plain
+    decimal numbers, enumeration values, required elements, attributes, xs:key and xs:keyref. -/
+theorem C03_valid_doc : C03_valid_doc_full writerModel := by
+  intro d h
+  exact valid_doc_data d h.1 h.2.1 h.2.2
+
+-- non-vacuity: a concrete schema-expressible scenario with the magnitudes the property names, and its document
+private def n (s : String) (neg : Bool) (a b : Nat) : Num := { repr := s.toList, neg := neg, num := a, den := b }
+private def pt2 (x y : Num) : Pt := { x := x, y := y }
+
+/-- one lanelet of 1e5 m, a static obstacle of length 1e-05 m rotated by 1e-06 rad, one planning problem -/
+def exampleDoc : DocD :=
+  { precision := 4, dt := n "1e-05" false 1 100000, version := "2020a", author := "A", affiliation := "TUM", source := "",
+    benchmark := "ZAM_Test-1_1_T-1", date := "2026-09-29",
+    location := { geoNameId := -999, lat := n "999" false 999 1, lon := n "999" false 999 1, geo := none, env := none },
+    tags := ["urban"],
+    lanelets := [{ id := 1, left := [pt2 (n "0.0" false 0 1) (n "1.0" false 1 1), pt2 (n "100000.0" false 100000 1) (n "1.0" false 1 1)],
+                   right := [pt2 (n "0.0" false 0 1) (n "-1.0" true 1 1), pt2 (n "100000.0" false 100000 1) (n "-1.0" true 1 1)],
+                   lmLeft := some "solid", lmRight := none, pred := [], succ := [1], adjL := none, adjR := none, stop := none,
+                   types := [], oneWay := ["car"], bidir := [], signs := [], lights := [] }],
+    signs := [], lights := [], intersections := [],
+    statics := [{ id := 2, type := "parkedVehicle",
+                  shape := [.rect (n "1e-05" false 1 100000) (n "2.0" false 2 1) (n "1e-06" false 1 1000000) (n "5.0" false 5 1) (n "0.0" false 0 1)],
+                  init := [.time (.exact 0), .position (.point (pt2 (n "5.0" false 5 1) (n "0.0" false 0 1))),
+                           .value "orientation" (.exact (n "1e-06" false 1 1000000))] }],
+    dynamics := [], phantoms := [], envs := [],
+    problems := [{ id := 3,
+                   init := [.time (.exact 0), .position (.point (pt2 (n "0.0" false 0 1) (n "0.0" false 0 1))),
+                            .value "orientation" (.exact (n "0.0" false 0 1)), .value "velocity" (.exact (n "10.0" false 10 1)),
+                            .value "yaw_rate" (.exact (n "0.0" false 0 1)), .value "slip_angle" (.exact (n "0.0" false 0 1))],
+                   goals := [[.time (.interval 1 50), .position (.lanelets [1])]] }] }
+
+set_option maxRecDepth 100000 in
+example : writerModel.Expressible exampleDoc := by show CR.C03.Expressible exampleDoc; decide
+set_option maxRecDepth 100000 in
+example : validDoc schema (docNode exampleDoc) = true := by decide
+
+example : (docNode exampleDoc).attrs.lookup "timeStepSize" = some "0.00001" := by decide
 
 end CR.C03
